@@ -2,6 +2,8 @@ import McpModel.Wire.LemmasMsg
 import McpModel.Wire.LemmasFrame
 import McpModel.Wire.LemmasContent2
 import McpModel.Wire.LemmasBatch
+import McpModel.Wire.LemmasSpell
+import McpModel.Wire.LemmasResult
 /-!
 # C19 (and the E2 part of C02) — property theorems of the wire engine
 
@@ -9,7 +11,8 @@ Model: `Wire.encodeMsg`/`decodeMsg` (`internal/jsonrpc2/messages.go`, `wire.go`)
 REPAIRED id path, fix F1), `toWireError`, `frame`/`unframe`, `readBatch`, `opRead`/`opWrite`
 (`ioConn`, REPAIRED batch tracking, fix F2), `writeEvent`/`scanEvents` (`mcp/event.go`),
 `encodeContent`/`decodeContent` (`mcp/content.go`, REPAIRED nesting, fix F8), `sdkResultList`
-(REPAIRED normalisation, fix F15).  Struct tags, codes and framing constants come from
+(REPAIRED normalisation, fix F15), `sdkCallTool` (results of raw tool handlers; REPAIRED nil result, fix
+wire-F30), `unquote` (the spelling of string literals on the wire).  Struct tags, codes and framing constants come from
 `Generated.Wire` (regenerated from /repo on every run): a changed tag re-opens these proofs.
 
 Every theorem quantifies over ALL messages / JSON values / byte strings / event lists / label
@@ -93,6 +96,30 @@ theorem response_needs_id (kvs : List (Bytes × JVal))
     (he : validErr (lookup wireDecode_Error_name kvs) = true) :
     decodeMsg (.obj kvs) = .error .noId :=
   L.response_needs_id kvs hv hm hi he
+
+/-! ## strings as a foreign peer spells them -/
+
+/-- **string_any_spelling.** Every spelling of a string that RFC 8259 allows — each character raw, as
+one of the eight short escapes (`\/` included), as `\uXXXX` with hex digits of either case, or as a
+UTF-16 surrogate pair — denotes that string: for EVERY list of spelled units, each valid, `unquote` of
+the spelled body is the concatenation of what the units denote. -/
+theorem string_any_spelling (l : List Sp) (h : ∀ x ∈ l, x.valid = true) : unquote (spell l) = some (denote l) :=
+  L.unquote_spell l h
+
+/-- `req\/1` is `req/1`; `\ud83d\uDE00` is U+1F600; a lone surrogate is outside the model. -/
+example : unquote [114, 101, 113, 92, 47, 49] = some [114, 101, 113, 47, 49] := by decide
+example : unquote [92, 117, 100, 56, 51, 100, 92, 117, 68, 69, 48, 48] = some [0xF0, 0x9F, 0x98, 0x80] := by decide
+example : unquote [92, 117, 100, 56, 51, 100] = none := by decide
+example : (Sp.pair (13, false) (8, false) (3, false) (13, true) (13, true) (14, true) (0, false) (0, false)).valid = true := by decide
+
+/-- **string_id_any_spelling** (C02 and C19). A string id is decoded to the string it denotes and
+echoed as that string, however the peer spelled it (composition of `string_any_spelling` and
+`id_echo_exact_wire`). -/
+theorem string_id_any_spelling (l : List Sp) (h : ∀ x ∈ l, x.valid = true) :
+    (unquote (spell l)).map (fun s => (decodeID (.str s)).map encodeId) = some (.ok (some (.str (denote l)))) := by
+  rw [string_any_spelling l h]
+  simp only [Option.map]
+  rw [id_echo_exact_wire (.str (denote l)) (Or.inl ⟨_, rfl⟩)]
 
 /-! ## framing -/
 
@@ -189,5 +216,31 @@ list member — never `null` — whatever the handler or registry left (nil incl
 theorem required_lists_present (k : RKind) (l : RList) (v : JVal) (h : sdkResultList k l = .sent v) :
     ∃ items, v = .arr items :=
   L.required_lists_present k l v h
+
+/-- **call_tool_content_present** (required_members_present for `tools/call` through the low-level
+`Server.AddTool`). Whatever result a raw tool handler returns — `Content` nil, empty or not,
+`StructuredContent` nil or any value, `IsError` either way — the result sent has a `content` member
+that is an ARRAY of exactly the handler's blocks (none for nil), each with its required members;
+`structuredContent` is the handler's value, present iff set; `isError` is present iff set. -/
+theorem call_tool_content_present (c : Option (List Content)) (s : Option JVal) (e : Bool) :
+    ∃ ms, sdkCallTool (.result c s e) = .sent ms ∧
+      lookup CallToolResult_Content_name ms = some (.arr (encodeContents (c.getD []))) ∧
+      contentArrOK (lookup CallToolResult_Content_name ms) = true ∧
+      lookup CallToolResult_StructuredContent_name ms = s ∧
+      lookup CallToolResult_IsError_name ms = (if e then some (.bool true) else none) :=
+  L.call_tool_content_present c s e
+
+/-- … and for every handler return (a result, `(nil, nil)`, an error): what is sent as a result has
+its `content` array (wire-F30 repaired: a nil result goes out as an empty one). -/
+theorem call_tool_never_without_content (r : ToolRet) (ms : List (Bytes × JVal)) (h : sdkCallTool r = .sent ms) :
+    contentArrOK (lookup CallToolResult_Content_name ms) = true :=
+  L.call_tool_never_without_content r ms h
+
+/-- Why the normalisation in `Server.callTool` must look at `Content` alone: a nil slice marshalled
+as it is gives `"content":null` — also when structured content is present. -/
+theorem call_tool_unnormalised_null (s : Option JVal) (e : Bool) :
+    lookup CallToolResult_Content_name (callToolMembers none s e) = some .null ∧
+    contentArrOK (lookup CallToolResult_Content_name (callToolMembers none s e)) = false :=
+  L.call_tool_unnormalised_null s e
 
 end Wire
